@@ -3,6 +3,7 @@ package main
 import (
 	"fmt"
 	"go/token"
+	"sort"
 	"strings"
 
 	"golang.org/x/tools/go/ssa"
@@ -11,14 +12,23 @@ import (
 // checkSkipsOnly: in a loop of f, the instruction `work` (per-element work) may be bypassed within an iteration only through
 // edges accepted by allowed.
 func checkSkipsOnly(r *Run, p *Program, rule, construct string, f *ssa.Function, work ssa.Instruction, allowed func(c *Cond) bool, okMsg, badMsg string) {
+	if !skipsOnlyFrame(r, p, rule, construct, f, work, allowed, badMsg) {
+		r.ok(rule, construct, p.Pos(f.Pos()), okMsg, true)
+	}
+}
+
+// skipsOnlyFrame reports (and returns true) when `work` in f can be bypassed over an edge that is neither allowed,
+// a loop bound, an error edge, nor an edge on which the function can only fail.
+func skipsOnlyFrame(r *Run, p *Program, rule, construct string, f *ssa.Function, work ssa.Instruction, allowed func(c *Cond) bool, badMsg string) bool {
 	w := &Walk{Fn: f, Stop: func(in ssa.Instruction) bool { return in == work }}
 	w.From()
 	bad := false
+	looped := inCycle(work.Block())
 	for _, b := range f.Blocks {
 		if len(b.Instrs) == 0 || !w.Visited[b.Instrs[len(b.Instrs)-1]] {
 			continue
 		}
-		if !sameCycle(b, work.Block()) {
+		if looped && !sameCycle(b, work.Block()) {
 			continue
 		}
 		for k := range b.Succs {
@@ -32,14 +42,103 @@ func checkSkipsOnly(r *Run, p *Program, rule, construct string, f *ssa.Function,
 			if allowed(c) || isLoopBound(c) || errNonNilEdge(c) != nil {
 				continue
 			}
-			// an edge that leaves towards a failure return is fine
+			// an edge that leaves towards a failure return is fine: the function reports the entry instead of skipping it
+			if edgeOnlyFails(f, b, k) {
+				continue
+			}
 			bad = true
 			r.bad(rule, construct, p.Pos(c.If.Cond.Pos()), badMsg+" ("+c.String(p)+")")
 		}
 	}
-	if !bad {
-		r.ok(rule, construct, p.Pos(f.Pos()), okMsg, true)
+	return bad
+}
+
+// workSite is a per-item piece of work found below a root function, with the call string leading to it.
+type workSite struct {
+	Node Node
+}
+
+// findWorkDeep lists the instructions satisfying isWork in root and in everything it calls (callbacks and closures
+// resolved through the call string), each with its context.
+func findWorkDeep(p *Program, root *ssa.Function, isWork func(in ssa.Instruction) bool) []Node {
+	w, _ := allNodesFrom(p, &Ctx{Fn: root})
+	var out []Node
+	for nd := range w.Reached {
+		if isWork(nd.In) {
+			out = append(out, nd)
+		}
 	}
+	sort.Slice(out, func(i, j int) bool {
+		if out[i].In.Pos() != out[j].In.Pos() {
+			return out[i].In.Pos() < out[j].In.Pos()
+		}
+		return out[i].Ctx.String() < out[j].Ctx.String()
+	})
+	return out
+}
+
+// checkSkipsDeep is checkSkipsOnly for work that may sit in a helper or in a callback below the loop: the skip
+// discipline is checked in every frame of the call string from root down to the work (the loop may be in any of them).
+func checkSkipsDeep(r *Run, p *Program, rule, construct string, nd Node, allowed func(c *Cond) bool, okMsg, badMsg string) {
+	bad := false
+	site := nd.In
+	var rootFn *ssa.Function
+	for ctx := nd.Ctx; ctx != nil; ctx = ctx.Parent {
+		if site == nil {
+			break
+		}
+		if site.Parent() == ctx.Fn {
+			if skipsOnlyFrame(r, p, rule, construct, ctx.Fn, site, allowed, badMsg) {
+				bad = true
+			}
+		}
+		rootFn = ctx.Fn
+		site = ctx.Site
+	}
+	if !bad {
+		r.ok(rule, construct, p.Pos(rootFn.Pos()), okMsg, true)
+	}
+}
+
+// controlledDeep: in some frame of the call string down to nd, the frame's site is reachable only over an edge satisfying pred.
+func controlledDeep(nd Node, pred func(c *Cond) bool) bool {
+	site := nd.In
+	for ctx := nd.Ctx; ctx != nil && site != nil; ctx = ctx.Parent {
+		if site.Parent() == ctx.Fn && controlledBy(ctx.Fn, site, pred) {
+			return true
+		}
+		site = ctx.Site
+	}
+	return false
+}
+
+// edgeOnlyFails: every return reachable over edge k of block b is a failure return (and at least one is reachable
+// without a back edge into b).
+func edgeOnlyFails(f *ssa.Function, b *ssa.BasicBlock, k int) bool {
+	seen := map[*ssa.BasicBlock]bool{}
+	stack := []*ssa.BasicBlock{b.Succs[k]}
+	n := 0
+	for len(stack) > 0 {
+		x := stack[len(stack)-1]
+		stack = stack[:len(stack)-1]
+		if seen[x] {
+			continue
+		}
+		seen[x] = true
+		if x == b {
+			return false
+		}
+		if len(x.Instrs) > 0 {
+			if ret, ok := x.Instrs[len(x.Instrs)-1].(*ssa.Return); ok {
+				if !isFailureReturn(f, ret) {
+					return false
+				}
+				n++
+			}
+		}
+		stack = append(stack, x.Succs...)
+	}
+	return n > 0
 }
 
 func strConstEq(c *Cond, vals ...string) bool {
@@ -132,8 +231,7 @@ func ruleOpenOrder(r *Run, p *Program, rule string) {
 			if c.Op != token.ILLEGAL || c.Pos != pos {
 				return false
 			}
-			call, idx := callResult(c.V)
-			return call == lockCall && idx == 1
+			return boolFromCallPred(c.V, func(cc *ssa.Call) bool { return cc == lockCall })
 		}
 	}
 	for _, c := range []*ssa.Call{backupCall, recoverCall} {
@@ -182,19 +280,19 @@ func ruleOpenOrder(r *Run, p *Program, rule string) {
 	// (e) backupNonsegmentFiles moves everything except segments and the lock file
 	if g := p.Fn("pogreb.backupNonsegmentFiles"); r.anchor(rule, "pogreb.backupNonsegmentFiles", g != nil) {
 		r.fn(funcKey(g))
-		var rn ssa.Instruction
-		instrsOf(g, func(in ssa.Instruction) {
-			if c, ok := in.(*ssa.Call); ok && isInvoke(&c.Call, "fs.FileSystem", "Rename") {
-				rn = c
-			}
+		rns := findWorkDeep(p, g, func(in ssa.Instruction) bool {
+			c, ok := in.(*ssa.Call)
+			return ok && isInvoke(&c.Call, "fs.FileSystem", "Rename")
 		})
-		if r.anchor(rule, "Rename in backupNonsegmentFiles", rn != nil) {
-			checkSkipsOnly(r, p, rule, "pogreb.backupNonsegmentFiles:skips", g, rn, func(c *Cond) bool { return strConstEq(c, ".psg", "lock") },
-				"recovery moves aside every file except *.psg and the lock file", "recovery leaves a file in place that is neither a segment nor the lock file: a stale/half-built index or metadata file survives into the rebuilt database")
-			// the destination is name + ".bac"
-			c := rn.(*ssa.Call)
-			dst := nameAbs(nil, c.Call.Args[1], 0)
-			r.check(dst == "DIRENT.bac", rule, "pogreb.backupNonsegmentFiles:dst", p.Pos(c.Pos()), "files are moved to <name>.bac", "files are moved aside to '"+dst+"', not <name>.bac (not removed afterwards / collides)")
+		if r.anchor(rule, "Rename in backupNonsegmentFiles", len(rns) > 0) {
+			for _, nd := range rns {
+				checkSkipsDeep(r, p, rule, "pogreb.backupNonsegmentFiles:skips", nd, func(c *Cond) bool { return strConstEq(c, ".psg", "lock") },
+					"recovery moves aside every file except *.psg and the lock file", "recovery leaves a file in place that is neither a segment nor the lock file: a stale/half-built index or metadata file survives into the rebuilt database")
+				// the destination is name + ".bac"
+				c := nd.In.(*ssa.Call)
+				dst := nameAbs(nd.Ctx, c.Call.Args[1], 0)
+				r.check(dst == "DIRENT.bac", rule, "pogreb.backupNonsegmentFiles:dst", p.Pos(c.Pos()), "files are moved to <name>.bac", "files are moved aside to '"+dst+"', not <name>.bac (not removed afterwards / collides)")
+			}
 		}
 	}
 	// (f,g) recover(): order and replay shape
@@ -446,8 +544,7 @@ func ruleC03WriteAhead(r *Run, p *Program, rule string) {
 				if e == nil {
 					return false
 				}
-				call, idx := callResult(e)
-				return call != nil && idx == 1 && isMatchKeyCall(call)
+				return carriesCallbackErr(e, 0)
 			})
 			r.check(okv, rule, "(*pogreb.index).delete:write-after-callback", p.Pos(c.Pos()), "the bucket is rewritten only when the key callback (which writes the delete record) returned no error", "index.delete removes the slot although the key callback returned an error (the delete record may not have been written)")
 		})
